@@ -224,7 +224,31 @@ func (fa *FuncAnalysis) MustFollowAllExits(from ssa.Instruction, targets []ssa.I
 	return fa.mustReach(from, targets, func(r *ssa.Return) bool { return true })
 }
 
+// EdgeFact returns the branch fact established by taking successor i of block b.
+func (fa *FuncAnalysis) EdgeFact(b *ssa.BasicBlock, i int) (Guard, bool) {
+	if len(b.Instrs) == 0 || len(b.Succs) != 2 || b.Succs[0] == b.Succs[1] {
+		return Guard{}, false
+	}
+	iff, ok := b.Instrs[len(b.Instrs)-1].(*ssa.If)
+	if !ok {
+		return Guard{}, false
+	}
+	pos := i == 0
+	t := fa.Term(iff.Cond)
+	for t.Op == "unop" && t.Name == "!" {
+		t = t.Args[0]
+		pos = !pos
+	}
+	return Guard{Cond: t, Pos: pos, If: iff}, true
+}
+
 func (fa *FuncAnalysis) mustReach(from ssa.Instruction, targets []ssa.Instruction, counts func(*ssa.Return) bool) []string {
+	return fa.mustReachPruned(from, targets, counts, nil)
+}
+
+// mustReachPruned: as mustReach, but CFG edges whose branch fact satisfies prune are not followed
+// (used for exits that are exempt under a stated condition, e.g. "the accumulator is empty").
+func (fa *FuncAnalysis) mustReachPruned(from ssa.Instruction, targets []ssa.Instruction, counts func(*ssa.Return) bool, prune func(Guard) bool) []string {
 	tset := map[ssa.Instruction]bool{}
 	for _, t := range targets {
 		tset[t] = true
@@ -255,9 +279,14 @@ func (fa *FuncAnalysis) mustReach(from ssa.Instruction, targets []ssa.Instructio
 				return false
 			}
 		}
-		for _, s := range n.b.Succs {
+		for i, s := range n.b.Succs {
 			if seen[s] {
 				continue
+			}
+			if prune != nil {
+				if g, ok := fa.EdgeFact(n.b, i); ok && prune(g) {
+					continue
+				}
 			}
 			seen[s] = true
 			parent[s] = n.b
